@@ -120,6 +120,10 @@ pub fn scenarios(tier: &str) -> Vec<Scenario> {
 			}
 		}
 	}
+	// while the index grows: a key still in the old index is removed / replaced, chain members go to the new index,
+	// two commits may be queued before the first is processed (commit ids and record ids have drifted apart: the
+	// reindex batches take record ids of their own)
+	v.push(crate::props::c09::pending_scenario(if thorough { "uniform/index-growth-pending/n3" } else { "uniform/index-growth-pending/n2" }, if thorough { 3 } else { 2 }, if thorough { 1 } else { 0 }));
 	v
 }
 
